@@ -236,7 +236,7 @@ def handleAvro (toks : List String) : Option String :=
 
   C17 csv <delim> <records>       records `rec|rec|…`, rec = comma-separated hex fields (`-` = empty field)
                                   → hex of the written lines (model writer; model reader must split them back)
-  C17 csvsplit <delim> <hex>      arbitrary input bytes → the records the reader model splits them into
+  C17 csvsplit <delim> <k> <hex>  arbitrary input bytes → the records the reader model splits them into
   C17 jsonstr <hex>               UTF-8 string → hex of the quoted, escaped JSON token
   C17 jsonunesc <hex>             a JSON string token → hex of the decoded string, or ERR:parse
   C17 jsonrt / csvrt …            whole-batch round trips checked in the harness (answer echoes the row count)
@@ -262,10 +262,13 @@ def Text.handleText (toks : List String) : Option String :=
         some s!"MODEL-SPEC-MISMATCH csv split={showRecords (Csv.readRecords d q out)}"
       else some (toHex out)
     | _, _ => some "bad-op"
-  | ["csvsplit", d, hex] =>
-    match d.toNat?, parseHex hex with
-    | some d, some bytes => some (showRecords (Csv.readRecords d 34 bytes))
-    | _, _ => some "bad-op"
+  | ["csvsplit", d, k, hex] =>
+    match d.toNat?, k.toNat?, parseHex hex with
+    | some d, some k, some bytes =>
+      let recs := Csv.readRecords d 34 bytes
+      -- `RecordDecoder::decode`: "incorrect number of fields" unless every record has k fields
+      if recs.all (fun r => r.length == k) then some (showRecords recs) else some "ERR:fields"
+    | _, _, _ => some "bad-op"
   | ["jsonstr", hex] =>
     match parseHex hex with
     | some s =>
